@@ -53,6 +53,8 @@ func (l *lockedBuf) Bytes() []byte {
 //
 // Everything the tool prints (pkg/libs/log at the given level) and the status documents it
 // serves are captured; the observation lists where a password occurs.
+var rejectAuth bool
+
 func runSecrets(c []string) string {
 	srcpw, tgtpw := string(unhex(c[2])), string(unhex(c[3]))
 	img, cmds := unhex(c[5]), unhex(c[6])
@@ -99,14 +101,17 @@ func runSecrets(c []string) string {
 	conf.Options.FilterDBBlacklist, conf.Options.FilterDBWhitelist = nil, nil
 	conf.Options.FilterKeyBlacklist, conf.Options.FilterKeyWhitelist, conf.Options.FilterSlot = nil, nil, nil
 
-	tgt, err := fakeredis.New(fakeredis.Options{RunID: "tgtrun"})
+	// "<scenario>+noauth": source and target answer AUTH with an error (and serve the commands all the same)
+	scen := strings.TrimSuffix(c[1], "+noauth")
+	rejectAuth = scen != c[1]
+	tgt, err := fakeredis.New(fakeredis.Options{RunID: "tgtrun", RejectAuth: rejectAuth})
 	if err != nil {
 		return "err=listen"
 	}
 	defer tgt.Close()
 	extra := ""
 	var docs [][]byte
-	switch c[1] {
+	switch scen {
 	case "sync":
 		var d [][]byte
 		extra, d = e2eSync(srcpw, tgtpw, img, cmds, tgt)
@@ -135,14 +140,14 @@ func runSecrets(c []string) string {
 		run.VerifRestoreRDB(bufio.NewReader(bytes.NewReader(img)), []string{tgt.Addr()}, int64(len(img)))
 	case "dump":
 		hdr := fmt.Sprintf("$%d\r\n", len(img))
-		srv := &fakesrc.Server{Rdb: img, Conns: []fakesrc.Script{{Hdr: []byte(hdr), Acts: []string{fmt.Sprintf("S%d", len(hdr)+len(img))}}}}
+		srv := &fakesrc.Server{Rdb: img, RejectAuth: rejectAuth, Conns: []fakesrc.Script{{Hdr: []byte(hdr), Acts: []string{fmt.Sprintf("S%d", len(hdr)+len(img))}}}}
 		addr, _ := srv.Listen()
 		defer srv.Close()
 		dir, _ := os.MkdirTemp("", "rsprobe-c19")
 		defer os.RemoveAll(dir)
 		run.VerifDump(addr, filepath.Join(dir, "out.rdb"))
 	case "rump":
-		src, _ := fakeredis.New(fakeredis.Options{ScanPages: map[int][][]string{0: {{"k1", "k2"}}}})
+		src, _ := fakeredis.New(fakeredis.Options{ScanPages: map[int][][]string{0: {{"k1", "k2"}}}, RejectAuth: rejectAuth})
 		defer src.Close()
 		src.DBs[0] = map[string]*fakeredis.Val{"k1": {Kind: "dump", S: img}, "k2": {Kind: "dump", S: img}}
 		done := make(chan struct{})
@@ -201,7 +206,7 @@ func e2eSync(srcpw, tgtpw string, img, cmds []byte, tgt *fakeredis.Server) (stri
 		hdr := fmt.Sprintf("+FULLRESYNC 8f3ac0ffee 1000\r\n$%d\r\n", len(img))
 		total := len(hdr) + len(img) + len(cmds)
 		half := len(hdr) + len(img) + len(cmds)/2
-		srv := &fakesrc.Server{Start: 1000, Rdb: img, Cmds: cmds,
+		srv := &fakesrc.Server{Start: 1000, Rdb: img, Cmds: cmds, RejectAuth: rejectAuth,
 			Conns: []fakesrc.Script{
 				{Hdr: []byte(hdr), Acts: []string{fmt.Sprintf("S%d", half), "M", "W1300", "D"}},
 				{Hdr: []byte("+CONTINUE\r\n"), Acts: []string{fmt.Sprintf("S%d", 11+total-half), "W1500"}},
